@@ -23,6 +23,7 @@ func init() { register("C15", checkC15) }
 
 func checkC15(p *Prog, r *Report) {
 	c15Units(p, r)
+	c15StoneScale(p, r)
 	c15Table(p, r)
 	c15PTF(p, r)
 	c15PTFArgs(p, r)
@@ -146,6 +147,15 @@ func c15Units(p *Prog, r *Report) {
 				a := stripVersions(e.Args[i])
 				t := a.single()
 				if t == nil {
+					// source × polynomial in dimensionless fractions (stone content): the unit is that of the
+					// stone-free value
+					if sc, src, okF := factoredScale(a); okF {
+						d += fmt.Sprintf("arg %d = %s (%g × fraction, from %s, times a stone-content factor); ", i, a, sc, shortRoot(src))
+						if sc != expect {
+							ok = false
+						}
+						continue
+					}
 					ok = false
 					d += fmt.Sprintf("arg %d = %s: unit not derivable; ", i, a)
 					continue
@@ -639,6 +649,42 @@ func c15History(p *Prog, r *Report, rule string) {
 			r.Ob("backup-writer:"+f+":"+strings.TrimPrefix(w.Key, "hermes."), p.Pos(w.Decl.Pos()), w.Key == "hermes.Input", "backups may only be written by the input routine")
 		}
 	}
+	// the route flag that selects "recompute from the table" or "restore from the backups" describes the whole
+	// profile: it must not be decided by whichever horizon the input loop visited last
+	if in := walked(p, "hermes.Input"); in != nil {
+		vals := map[string]string{}
+		for _, e := range in.Events {
+			if e.Kind != "assign" || e.Root != "GlobalVarsMain.CAPPAR" || len(e.Loops) == 0 {
+				continue
+			}
+			perItem := false
+			for _, g := range flattenGuards(e.Guards) {
+				if g.Loop {
+					continue
+				}
+				condAtoms(g, func(a *Atom) {
+					if a.Kind == "cell" {
+						for _, ix := range a.Idx {
+							ix.walkAtoms(func(b *Atom) {
+								if b.Kind == "loop" {
+									perItem = true
+								}
+							})
+						}
+					}
+				})
+			}
+			if perItem {
+				vals[e.Val.String()] = p.Pos(e.Pos)
+			}
+		}
+		var vs []string
+		for v, ps := range vals {
+			vs = append(vs, v+" at "+ps)
+		}
+		sort.Strings(vs)
+		r.Ob("route-flag:CAPPAR", "-", len(vals) <= 1, fmt.Sprintf("values the per-horizon arms of the input loop store into the profile-wide route flag: %s — with two different values the last horizon decides, and a profile that mixes horizons with explicit values and table horizons has its explicit horizons overwritten with table values (or its table horizons frozen) at the first change of the groundwater level", orStr(strings.Join(vs, "; "), "none")))
+	}
 	// writers of W on the run path
 	okW := map[string]string{"hermes.Input": "parameter assignment per route, saturation at start", "hermes.HermesSession.Run": "daily groundwater update (restore / recompute)", "hermes.setFieldCapacityWithGW": "saturation below the table"}
 	for _, w := range fx.Writers(FieldRef{"GlobalVarsMain", "W"}) {
@@ -917,4 +963,136 @@ func c15TableOrder(p *Prog, r *Report) {
 		det += "; no cap of the field capacity at the pore volume follows: the field-capacity correction (up to +13 Vol%) and the pore-volume correction (0 for silt, loam and clay) are chosen independently, so field capacity can exceed pore volume"
 	}
 	r.Ob("fc<=pv", p.Pos(lastFC.Pos), ok, det)
+}
+
+// ---------------------------------------------------------------- R1b stone scaling of the threshold
+
+// scaleOf returns val / (cell of root mentioned in val), with indices and versions erased.
+func scaleOf(val Poly, root string) (Poly, bool) {
+	var cell *Atom
+	val.walkAtoms(func(a *Atom) {
+		if a.Kind == "cell" && a.Root == root && cell == nil {
+			cell = a
+		}
+	})
+	if cell == nil {
+		return Poly{}, false
+	}
+	q := stripVersions(val).Div(stripVersions(PAtom(cell)))
+	return eraseIdx(q), true
+}
+
+func eraseIdx(q Poly) Poly {
+	return q.Subst(func(a *Atom) (Poly, bool) {
+		if a.Kind == "cell" && len(a.Idx) > 0 {
+			return cellP(a.Root), true
+		}
+		return Poly{}, false
+	})
+}
+
+// c15StoneScale: on the texture-table route the layer values are the table
+// values times (1 − stone fraction).  The threshold helper must be fed values
+// carrying the same factor, otherwise the threshold is compared (in mineral
+// and Nitro) with layer values on another scale and, with stones in the top
+// horizon, leaves the interval (wilting point, field capacity).
+func c15StoneScale(p *Prog, r *Report) {
+	r.Rule("C15.R1b", "stone correction of the threshold on the texture-table route: the wilting point and field capacity handed to the threshold helper carry the same factor relative to the table values as the layer values stored for the simulation (table value × (1 − stone fraction))", 2)
+	in := walked(p, "hermes.Input")
+	hy := walked(p, "hermes.Hydro")
+	if in == nil || hy == nil {
+		r.Ob("walk", "-", false, "Input/Hydro not analysable")
+		return
+	}
+	layer := map[string]Poly{}
+	for _, e := range in.Events {
+		if e.Kind != "assign" {
+			continue
+		}
+		switch e.Root {
+		case "GlobalVarsMain.WMIN":
+			if s, ok := scaleOf(e.Val, "GlobalVarsMain.LIM"); ok {
+				layer["wp"] = s
+			}
+		case "GlobalVarsMain.W":
+			if s, ok := scaleOf(e.Val, "GlobalVarsMain.FELDW"); ok {
+				layer["fc"] = s
+			}
+		}
+	}
+	n := 0
+	for _, e := range hy.Events {
+		if e.Kind != "call" || e.Name != "hermes.calcWRed" || len(e.Args) < 2 {
+			continue
+		}
+		n++
+		for i, it := range []struct{ k, root string }{{"wp", "GlobalVarsMain.LIM"}, {"fc", "InputSharedVars.FK"}} {
+			s, ok := scaleOf(e.Args[i], it.root)
+			want, has := layer[it.k]
+			okS := false
+			det := ""
+			if !ok || !has {
+				det = fmt.Sprintf("argument %s or the layer store of the table route not recognised", clip(e.Args[i].String(), 60))
+			} else {
+				// the helper takes percent: factor 100 relative to the fraction the layers hold
+				okS = s.Equal(want.Scale(ratInt(100)))
+				det = fmt.Sprintf("threshold helper gets table value × (%s); the layers hold table value × (%s) (the helper expects percent, so the factor must be 100 × the layers' factor)", s, want)
+			}
+			r.Ob("stone-scale:"+it.k, p.Pos(e.Pos), okS, det)
+		}
+	}
+	if n == 0 {
+		r.Ob("stone-scale", "-", false, "no call of the threshold helper in Hydro")
+	}
+}
+
+
+
+// dimensionless fractions that may multiply a capacity value without changing its unit
+var c15Dimless = map[string]bool{"GlobalVarsMain.STEIN": true}
+
+// factoredScale handles S·q(dimensionless) with one seeded atom S common to all terms.
+func factoredScale(a Poly) (float64, string, bool) {
+	var S *Atom
+	for _, t := range a.T {
+		var s *Atom
+		for _, f := range t.M {
+			if _, ok := atomUnit(f.A); ok && f.E == 1 {
+				s = f.A
+			}
+		}
+		if s == nil || (S != nil && s != S) {
+			return 0, "", false
+		}
+		S = s
+	}
+	if S == nil {
+		return 0, "", false
+	}
+	q := a.Div(PAtom(S))
+
+	bad := false
+	for _, t := range q.T {
+		for _, f := range t.M {
+			if !(f.A.Kind == "cell" && c15Dimless[f.A.Root]) || f.E < 1 {
+				bad = true
+			}
+		}
+	}
+	if bad {
+		return 0, "", false
+	}
+	c0 := q.Subst(func(at *Atom) (Poly, bool) {
+		if at.Kind == "cell" && c15Dimless[at.Root] {
+			return PZero(), true
+		}
+		return Poly{}, false
+	})
+	c, ok := c0.Const()
+	if !ok || c.Sign() <= 0 {
+		return 0, "", false
+	}
+	u, _ := atomUnit(S)
+	cf, _ := c.Float64()
+	return cf * u, S.Key, true
 }
